@@ -562,3 +562,51 @@ func FuzzC19Decode(f *testing.F) {
 		}
 	})
 }
+
+// Blocking API over a transport that behaves like a non-blocking socket: short writes and would-block in the middle of
+// an item. The caller finishes the item by flushing the write buffer; nothing may be sent twice or left out.
+func TestC19_SyncWriteWouldBlockMidItem(t *testing.T) {
+	rec := evid.For("C19")
+	rec.SetRule(c19Rule)
+	vt.Check(t, 800, func(t *rapid.T) {
+		items := genItems(t, 5, 4096)
+		ms := memstream.New(nil)
+		src, dst := sonic.NewByteBuffer(), sonic.NewByteBuffer()
+		cc, _ := sonic.NewCodecConn[[]byte, []byte](ms, frame.NewCodec(src), src, dst)
+		blocked := 0
+		var plans [][]int
+		for i, it := range items {
+			plan := rapid.SliceOfN(rapid.SampledFrom([]int{0, 0, 1, 2, 3, 5, 100, 1000}), 0, 5).Draw(t, "plan")
+			plans = append(plans, plan)
+			ms.SyncWritePlan = append([]int(nil), plan...)
+			n, err := cc.WriteNext(it)
+			for guard := 0; err != nil; guard++ {
+				if !errors.Is(err, sonicerrors.ErrWouldBlock) {
+					t.Fatalf("WriteNext #%d: %v", i, err)
+				}
+				if guard > 20 {
+					t.Fatalf("WriteNext #%d still would-block after the transport accepts everything", i)
+				}
+				blocked++
+				// the socket became writable again: the caller flushes what is left of the item
+				var m int64
+				m, err = dst.WriteTo(ms)
+				n += int(m)
+			}
+			if n != 4+len(it) {
+				t.Fatalf("item #%d (%d bytes, write plan %v): the write calls reported %d bytes in total, want %d", i, len(it), plan, n, 4+len(it))
+			}
+			if dst.ReadLen() != 0 || dst.WriteLen() != 0 {
+				t.Fatalf("item #%d: %d bytes left in the write buffer after it was reported written", i, dst.ReadLen()+dst.WriteLen())
+			}
+			if want := wireOf(items[:i+1]); !bytes.Equal(ms.Out, want) {
+				t.Fatalf("after item #%d (%d bytes, write plan %v) the transport holds %d bytes, want %d (prefix+payload of every item exactly once); tails got %x want %x", i, len(it), plan, len(ms.Out), len(want), tail(ms.Out), tail(want))
+			}
+		}
+		var sizes []int
+		for _, it := range items {
+			sizes = append(sizes, len(it))
+		}
+		rec.Case(fmt.Sprintf("sw|%v|%v", sizes, plans), blocked > 0, []string{"sync-write-would-block-mid-item"}, map[string]any{"kind": "sync-write", "sizes": sizes, "write_plans": plans, "would_block_count": blocked})
+	})
+}
